@@ -302,6 +302,9 @@ def merge(prop, tier, seed, t0, results, compile_violations=()):
                     samples.append(s)
         gate_broken += res.get("gate_broken_histories", 0)
         for f in res.get("failures", []):
+            if f["property"] == "ASSUME":
+                inconclusive.append("an assumption of the harness does not hold on this tree: %s" % f.get("message", "")[:300])
+                continue
             if f["property"] != prop:
                 continue
             f = dict(f, mode=r["mode"], argv=r["argv"])
